@@ -21,6 +21,7 @@
 #include <unistd.h>
 #include <fcntl.h>
 #include <signal.h>
+#include <sys/prctl.h>
 #include <errno.h>
 #include <time.h>
 #include <sys/mman.h>
@@ -415,6 +416,7 @@ public:
 			pid_t pid = fork();
 			if (pid < 0) { perror("fork"); return 2; }
 			if (pid == 0) {
+				prctl(PR_SET_PDEATHSIG, SIGKILL);   // a case that loops for ever must not outlive a runner that was killed
 				int fd = open(errpath.c_str(), O_WRONLY | O_CREAT | O_TRUNC, 0666);
 				if (fd >= 0) { dup2(fd, 2); close(fd); }
 				child(*m, next);
